@@ -397,6 +397,10 @@ func AddAliases(indexName string, aliases []string, orgid int64) error {
 		log.Errorf("AddAliases: indexName is null. len(indexName)=%v", len(indexName))
 		return errors.New("indexName is null")
 	}
+	if !IsValidIndexName(indexName) {
+		log.Errorf("AddAliases: invalid indexName=%v", indexName)
+		return errors.New("indexName is invalid")
+	}
 
 	alLen := len(aliases)
 	if alLen == 0 {
@@ -459,6 +463,10 @@ func GetAliasesAsArray(indexName string, orgid int64) ([]string, error) {
 }
 
 func GetAliases(indexName string, orgid int64) (map[string]bool, error) {
+	if !IsValidIndexName(indexName) {
+		return map[string]bool{}, fmt.Errorf("GetAliases: invalid indexName=%v", indexName)
+	}
+
 	var sb1 strings.Builder
 	sb1.WriteString(VTableAliasesDir)
 	if orgid != 0 {
@@ -622,6 +630,10 @@ func RemoveAliases(indexName string, aliases []string, orgid int64) error {
 	if indexName == "" {
 		log.Errorf("RemoveAliases: indexName is null.len(indexName)=%v", len(indexName))
 		return errors.New("indexName is null")
+	}
+	if !IsValidIndexName(indexName) {
+		log.Errorf("RemoveAliases: invalid indexName=%v", indexName)
+		return errors.New("indexName is invalid")
 	}
 
 	alLen := len(aliases)
